@@ -46,10 +46,12 @@ fn node_b<I: Interface + 'static>(own: u16, link: I, handlers: &[&[u64]], remain
     let entries = log.borrow().iter().map(|(label, p)| (*idmap.get(label).unwrap_or(&0xffff_ffff), *label, p.clone())).collect();
     (ids, rets, entries)
 }
+// the event a logged packet carries: decoded by the decoder of the kind its event code names (C01 asks that the packet
+// decodes to the value sent; whether ANOTHER kind's decoder would also accept it is C12's question)
 fn classify(p: &Packet) -> L {
-    let mut found: Vec<L> = vec![];
-    for k in 0..16u64 { if let Some(Ok(e)) = crate::guarded(|| decode(k, p)) { if let Some(f) = e.fields() { found.push(f); } else { found.push(vec![255]); } } }
-    if found.len() == 1 { found.pop().unwrap() } else { vec![255] }
+    if p.data.len() < 2 || p.data[0] != 0 || p.data[1] > 15 { return vec![255]; }
+    let k = p.data[1] as u64;
+    match crate::guarded(|| decode(k, p)) { Some(Ok(e)) => e.fields().unwrap_or(vec![255]), _ => vec![255] }
 }
 fn gap_at(gaps: &[u64], i: usize) -> usize { if gaps.is_empty() { 0 } else { gaps[i % gaps.len()] as usize } }
 
